@@ -215,4 +215,15 @@ example :
       AllFinite (ddenote d) := by
   refine ⟨by decide +kernel, by decide +kernel, by decide +kernel, by decide +kernel, by decide +kernel, allFinite_ddenote _⟩
 
+/-- `Range(description, default)`: a blank description stands for the default (which the code asserts not to be blank),
+any other description is used as it is -/
+theorem C01_default (description dflt : Str) (hd : (strip dflt).isEmpty = false) :
+    ((strip description).isEmpty = true → Range.parse description (some dflt) = Range.parse dflt) ∧
+    ((strip description).isEmpty = false → Range.parse description (some dflt) = Range.parse description) := by
+  constructor
+  · intro h
+    simp [Range.parse, h, hd]
+  · intro h
+    simp [Range.parse, h]
+
 end Cutplace.Props
